@@ -21,6 +21,8 @@ def cfg_name(cfg):
         parts.append(f"ring={cfg['last_ops']}")
     if cfg.get('trace'):
         parts.append('trace')
+    if cfg.get('via'):
+        parts.append('via=' + cfg['via'])
     if cfg.get('probe'):
         parts.append(f"probe={cfg['probe']}")
     return ','.join(parts)
@@ -181,7 +183,7 @@ def minimise(case, violation, fields=('outcome', 'ops', 'last_ops', 'log', 'fina
             c2['version'] = 1
             changed |= attempt(c2)
         # drop script entries
-        for k in sorted((best.get('script') or {}).keys(), key=int, reverse=True):
+        for k in sorted((best.get('script') or {}).keys(), key=lambda x: -1 if x == 'attach' else int(x), reverse=True):
             c2 = copy.deepcopy(best)
             del c2['script'][k]
             if attempt(c2):
